@@ -2303,6 +2303,34 @@ fn cmd_trace(a: &Args) -> i32 {
         Err(e) => harness_error(&format!("cannot load the data image: {}", e)),
     };
     sim::prime_output_hints(&image);
+    if a.opts.contains_key("conc") {
+        // S7: one line per concurrent-callers run (digest of schedule and answers)
+        let _ = load_static(&image);
+        let fork = conc::library_process_state().is_some();
+        let mut handles = vec![];
+        for t in 0..threads {
+            handles.push(std::thread::Builder::new().stack_size(16 << 20).spawn(move || {
+                let mut v = vec![];
+                let mut i = from + t;
+                while i < to {
+                    let (wseed, policy, sseed) = conc::run_params(seed, i);
+                    let o = conc::execute_isolated(&conc::workload(wseed), policy, sseed, &[], fork);
+                    v.push((i, conc::outcome_digest(&o), o.log.picks.len(), o.answers, o.wrong.len()));
+                    i += threads;
+                }
+                v
+            }).unwrap());
+        }
+        let mut all = vec![];
+        for h in handles {
+            all.extend(h.join().unwrap());
+        }
+        all.sort();
+        for (i, d, steps, answers, wrong) in all {
+            println!("seed={} conc run={} steps={} log={:016x} answers={} wrong={}", seed, i, steps, d, answers, wrong);
+        }
+        return 0;
+    }
     if a.opts.contains_key("sessions") {
         // crash-restart histories: one line per session (digest of all event logs and disk states)
         let m0 = sim::execute(gen, &image, sim::replay_mode(&[]), false, false).crash_points;
